@@ -122,7 +122,7 @@ def run(chk):
     events, meta = [], []
     for part_j, part_m in zip(common.chunks(jobs, 20000), common.chunks(jm, 20000)):
         for r, (c, lang) in zip(common.run_driver("gen", part_j), part_m):
-            if r["status"] in ("panic", "abort"):
+            if r["status"] in ("panic", "abort", "hang"):
                 continue       # C07's business
             out = r["status"]
             if out == "error" and c["skip"] != "none" and all(e["msg"].startswith("generate:") for e in r["errors"]):
